@@ -177,7 +177,7 @@ static vrt_rec_t *newrec_p(int progress)
 }
 static vrt_rec_t *newrec(void) { return newrec_p(1); }
 
-static void rt_pre(struct dispatch_verif_site_s *s, const volatile void *addr)
+static void rt_pre_impl(struct dispatch_verif_site_s *s, const volatile void *addr)
 {
 	if (t_in_rt) return;
 	int c = classify(s);
@@ -202,7 +202,7 @@ static void rt_pre(struct dispatch_verif_site_s *s, const volatile void *addr)
 	t_held = 1; t_hobj = o; t_hoff = off; t_hcls = c;
 }
 
-static void rt_post(struct dispatch_verif_site_s *s, const volatile void *addr,
+static void rt_post_impl(struct dispatch_verif_site_s *s, const volatile void *addr,
 		unsigned long long ov, unsigned long long nv, int ok, unsigned size)
 {
 	if (t_in_rt) return;
@@ -250,7 +250,7 @@ out:
 	if (g_post_steer) { t_in_rt = 1; g_post_steer(s, addr, hobj); t_in_rt = 0; }
 }
 
-static void rt_probe(const char *kind, const volatile void *obj, long a, long b)
+static void rt_probe_impl(const char *kind, const volatile void *obj, long a, long b)
 {
 	if (t_in_rt) return;
 	long off = 0;
@@ -269,6 +269,14 @@ static void rt_probe(const char *kind, const volatile void *obj, long a, long b)
 	t_last_load_addr = NULL;
 	pthread_mutex_unlock(&g_lock);
 }
+
+/* The callbacks run in the middle of library code that may look at errno afterwards (e.g. the sem_timedwait probe sits
+ * between the call and its errno test): whatever the runtime does (locks, perturbation sleeps interrupted by a signal)
+ * must not be visible there. */
+static void rt_pre(struct dispatch_verif_site_s *s, const volatile void *addr) { int e = errno; rt_pre_impl(s, addr); errno = e; }
+static void rt_post(struct dispatch_verif_site_s *s, const volatile void *addr, unsigned long long ov, unsigned long long nv, int ok, unsigned size)
+{ int e = errno; rt_post_impl(s, addr, ov, nv, ok, size); errno = e; }
+static void rt_probe(const char *kind, const volatile void *obj, long a, long b) { int e = errno; rt_probe_impl(kind, obj, a, b); errno = e; }
 
 uint64_t vrt_api(const char *name, int obj, long a, long b, long c)
 {
@@ -384,6 +392,26 @@ static void *watchdog(void *arg)
 	return NULL;
 }
 
+/* Signal storm (environment perturbation): VRT_SIGNAL_STORM_US=<period> makes a helper thread deliver SIGUSR2 (no-op
+ * handler installed WITHOUT SA_RESTART) to a random known thread every period: blocking system calls of the library
+ * (futex wait, sem_wait, epoll_wait) return EINTR at arbitrary moments, as they may in any process with signal
+ * handlers.  The library has to treat that as "nothing happened". */
+static void storm_handler(int sig) { (void)sig; }
+static void *storm_thread(void *arg)
+{
+	unsigned period = (unsigned)(uintptr_t)arg;
+	uint64_t x = g_seed * 0x9e3779b97f4a7c15ull + 12345;
+	for (;;) {
+		usleep(period);
+		int n = atomic_load(&g_ntid);
+		if (n <= 0) continue;
+		x ^= x << 13; x ^= x >> 7; x ^= x << 17;
+		long k = g_ktid[(int)(x % (uint64_t)(n < MAXT ? n : MAXT))];
+		if (k > 0) syscall(SYS_tgkill, (long)getpid(), k, SIGUSR2);
+	}
+	return NULL;
+}
+
 void vrt_init(const char *outpath, uint64_t seed, int perturb_level)
 {
 	g_out = outpath;
@@ -402,6 +430,16 @@ void vrt_init(const char *outpath, uint64_t seed, int perturb_level)
 	memset(&st, 0, sizeof(st));
 	st.sa_handler = on_term;       /* killed by an outer timeout: keep the evidence */
 	sigaction(SIGTERM, &st, NULL);
+	const char *storm = getenv("VRT_SIGNAL_STORM_US");
+	if (storm && atoi(storm) > 0) {
+		struct sigaction ss;
+		memset(&ss, 0, sizeof(ss));
+		ss.sa_handler = storm_handler;      /* no SA_RESTART */
+		sigaction(SIGUSR2, &ss, NULL);
+		pthread_t st;
+		pthread_create(&st, NULL, storm_thread, (void *)(uintptr_t)atoi(storm));
+		pthread_detach(st);
+	}
 	pthread_t wd;
 	pthread_create(&wd, NULL, watchdog, NULL);
 	pthread_detach(wd);
